@@ -32,6 +32,12 @@ pub fn keys_of(o: &StepOutcome) -> Vec<(Value, String)> {
                     s["raw"].as_str().unwrap_or("").to_string(),
                 ));
             }
+            if r["i1"] == "fuel" {
+                out.push((
+                    json!({"class":"i1_fuel_exhausted","function":r["i1_site"]["function"]}),
+                    "the recompute exceeded its loop budget (non-termination or data-dependent blow-up)".into(),
+                ));
+            }
             if r["i1"] == "panic" {
                 let s = &r["i1_site"];
                 out.push((
@@ -119,6 +125,26 @@ fn replay_one(path: &str) -> i32 {
     let doc = report::read_replay(std::path::Path::new(path));
     let want = doc["violation_key"].clone();
     let scratch = Scratch::new("c14r");
+    if doc["threaded"] == true {
+        // threaded history: re-run the job and re-judge through the quick path
+        println!("threaded replay: re-running the recorded job");
+        let env: Vec<(String, String)> = doc["env"].as_object().map(|o| o.iter().map(|(k, v)| (k.clone(), v.as_str().unwrap_or("").to_string())).collect()).unwrap_or_default();
+        let o = super::c05::run_proc_jobs(&[(doc["job"].clone(), env)], &scratch.dir);
+        let bad = match &o[0] {
+            crate::orch::Outcome::Result(v) => {
+                v["report"]["deadlock"] == true
+                    || v["ops"].as_array().map(|a| a.iter().flat_map(|t| t.as_array().cloned().unwrap_or_default()).any(|r| r["class"] == "panic" || r["class"] == "fuel" || !keys_of(&StepOutcome::Result(r["step"].clone())).is_empty())).unwrap_or(false)
+            }
+            _ => true,
+        };
+        if bad {
+            println!("VIOLATION property=C14 replay={}", path);
+            println!("  reproduced key={}", want);
+            return 1;
+        }
+        println!("replay did not reproduce");
+        return 0;
+    }
     let steps: Vec<Value> = doc["steps"].as_array().cloned().unwrap_or_else(|| vec![doc["step"].clone()]);
     let o = modelrun::run_steps(&steps, &cfg(), &scratch.dir);
     let keys: Vec<(Value, String)> = o.iter().flat_map(keys_of).collect();
@@ -207,8 +233,121 @@ pub fn run(tier: &str, seed: u64, replay: Option<String>) -> i32 {
     );
     let out = modelrun::run_steps(&steps, &cfg(), &scratch.dir);
 
+    // ---- the same histories with several caller threads: a failure on one thread meets
+    // healthy computations on the others (baton scheduler, real threads)
+    let healthy: Vec<Value> = bases
+        .iter()
+        .filter(|b| !b.starts_with("min:"))
+        .map(|b| json!({"op":"indicators","base":b,"edits":[]}))
+        .collect();
+    let refs = super::c05::compute_refs(&healthy, &scratch.dir);
+    let healthy: Vec<Value> = healthy
+        .into_iter()
+        .filter(|o| refs.get(&super::c05::op_key(o)).map(|(c, _)| c == "ok").unwrap_or(false))
+        .collect();
+    let n_thr = if thorough { 4000 } else { 200 };
+    let mut thr_cases: Vec<(Value, Vec<(String, String)>)> = vec![];
+    let faulted_pool: Vec<&Value> = steps.iter().filter(|s| s["what"] != "intact").collect();
+    for _ in 0..n_thr {
+        if healthy.is_empty() || faulted_pool.is_empty() {
+            break;
+        }
+        let nthreads = rng.range(2, 4);
+        let n_faulted = if nthreads > 2 && rng.chance(1, 3) { 2 } else { 1 };
+        let mut threads: Vec<Vec<Value>> = vec![];
+        for t in 0..nthreads {
+            if t < n_faulted {
+                let n = rng.range(1, 4);
+                threads.push(
+                    (0..n)
+                        .map(|_| {
+                            let s = *rng.pick(&faulted_pool);
+                            json!({"op":"recompute","base":s["base"],"edits":s["edits"],"require_all":false})
+                        })
+                        .collect(),
+                );
+            } else {
+                let n = rng.range(1, 3);
+                threads.push((0..n).map(|_| rng.pick(&healthy).clone()).collect());
+            }
+        }
+        let sched = match rng.below(3) {
+            0 => json!({"strategy":"random"}),
+            1 => json!({"strategy":"pct","d":rng.range(1,3),"est":rng.range(10,200)}),
+            _ => json!({"strategy":"rr","q":rng.range(0,4)}),
+        };
+        thr_cases.push((
+            json!({"t":"proc","threads":threads,"sched":sched,"sched_seed":rng.next_u64() % 1_000_000_007,"fuel": 500_000_000i64}),
+            super::c05::env_of(rng.next_u64() % 1000, None),
+        ));
+    }
+    let thr_out = super::c05::run_proc_jobs(&thr_cases, &scratch.dir);
+
     let mut groups: BTreeMap<String, (Value, usize, Value, String, usize)> = BTreeMap::new();
-    let mut evaluations = 0u64;
+    let mut thr_steps = 0u64;
+    let mut thr_interleavings: HashSet<String> = HashSet::new();
+    let mut thr_switches_cs = 0u64;
+    for ((job, env), o) in thr_cases.iter().zip(thr_out.iter()) {
+        let envmap: BTreeMap<String, String> = env.iter().cloned().collect();
+        let replay = json!({"engine":"procsim","threaded": true, "job": job, "env": envmap});
+        let size = 1_000_000 + job["threads"].as_array().map(|a| a.iter().map(|t| t.as_array().map(|x| x.len()).unwrap_or(0)).sum::<usize>()).unwrap_or(0);
+        let mut found: Vec<(Value, String)> = vec![];
+        match o {
+            crate::orch::Outcome::Result(v) => {
+                let rep = &v["report"];
+                thr_steps += rep["decisions"].as_u64().unwrap_or(0);
+                thr_switches_cs += rep["switches_in_critical_section"].as_u64().unwrap_or(0);
+                thr_interleavings.insert(rep["interleaving_hash"].as_str().unwrap_or("").to_string());
+                if rep["deadlock"] == true {
+                    found.push((json!({"class":"deadlock","locks":rep["lock_names"]}), "no enabled thread while some unfinished".into()));
+                }
+                let any_failed = v["ops"].as_array().map(|a| a.iter().flat_map(|t| t.as_array().cloned().unwrap_or_default()).any(|r| r["step"]["i1"] == "panic" || r["step"]["i1"] == "fuel")).unwrap_or(false);
+                for (ti, ops) in job["threads"].as_array().cloned().unwrap_or_default().iter().enumerate() {
+                    for (oi, op) in ops.as_array().cloned().unwrap_or_default().iter().enumerate() {
+                        let r = &v["ops"][ti][oi];
+                        if r.is_null() {
+                            continue;
+                        }
+                        if op["op"] == "recompute" {
+                            if r["class"] == "ok" {
+                                found.extend(keys_of(&StepOutcome::Result(r["step"].clone())));
+                            }
+                        } else if let Some((rc, rh)) = refs.get(&super::c05::op_key(op)) {
+                            let cls = r["class"].as_str().unwrap_or("?");
+                            if cls == "panic" || cls == "fuel" {
+                                found.push((
+                                    json!({"class":"i2_probe_panics","probe_msg":r["site"]["msg"],"after": if any_failed {"a concurrent failed recompute"} else {"concurrent recomputes that returned"}}),
+                                    format!("healthy computation on another thread panicked: {}", r["raw"].as_str().unwrap_or("")),
+                                ));
+                            } else if cls != rc.as_str() || r["hash"].as_str().unwrap_or("") != rh {
+                                found.push((
+                                    json!({"class":"i2_probe_differs","after": if any_failed {"a concurrent failed recompute"} else {"concurrent recomputes that returned"}}),
+                                    "healthy computation on another thread differs from its isolated reference".into(),
+                                ));
+                            }
+                        }
+                    }
+                }
+            }
+            crate::orch::Outcome::Abort { status, stderr_tail } => found.push((
+                json!({"class":"i1_abort","what": if stderr_tail.contains("stack overflow") {"stack overflow"} else if stderr_tail.contains("memory allocation") {"allocation failure"} else {"process died"}}),
+                format!("{} | {}", status, stderr_tail.lines().last().unwrap_or("")),
+            )),
+            crate::orch::Outcome::Timeout => found.push((json!({"class":"i1_hang"}), "no result within the watchdog limit (threads)".into())),
+        }
+        for (key, detail) in found {
+            let e = groups
+                .entry(key.to_string())
+                .or_insert_with(|| (key.clone(), 0, replay.clone(), detail.clone(), size));
+            e.1 += 1;
+            if size < e.4 {
+                e.2 = replay.clone();
+                e.3 = detail;
+                e.4 = size;
+            }
+        }
+    }
+    let mut evaluations = thr_cases.len() as u64;
     let mut classes: BTreeMap<String, u64> = BTreeMap::new();
     let mut fired: BTreeMap<String, u64> = BTreeMap::new();
     let mut descriptors: HashSet<String> = HashSet::new();
@@ -301,6 +440,10 @@ pub fn run(tier: &str, seed: u64, replay: Option<String>) -> i32 {
     extra.insert("healthy_probes_equal_to_reference".into(), json!(probes_equal));
     extra.insert("recomputes_that_failed".into(), json!(i1_failures));
     extra.insert("known_findings_hit".into(), json!(verdict.known_hit));
+    extra.insert("threaded_cases".into(), json!(thr_cases.len()));
+    extra.insert("scheduler_steps".into(), json!(thr_steps));
+    extra.insert("distinct_interleavings".into(), json!(thr_interleavings.len()));
+    extra.insert("context_switches_inside_critical_section".into(), json!(thr_switches_cs));
     extra.insert("seeds_per_hour".into(), json!((evaluations as f64 / wall.max(0.001) * 3600.0) as u64));
     extra.insert("simulated_time".into(), json!("n/a - no timers in the system; (edit, recompute, probe) steps reported instead"));
     extra.insert("components".into(), report::components());
